@@ -54,6 +54,10 @@ type verifC28CallBeh struct {
 	FailMask  uint32 `json:"fail_mask"`
 	FailKind  int    `json:"fail_kind"`
 	EmitMode  int    `json:"emit_mode"`
+	// EmitMode 3: results complete in an arbitrary order, also within one
+	// session: item i is emitted in the stable order of EmitKeys[i%len] (the
+	// append latency of the item's channel); no keys = reversed.
+	EmitKeys []int `json:"emit_keys,omitempty"`
 }
 
 type verifC28Params struct {
@@ -66,6 +70,25 @@ type verifC28Params struct {
 	DrainShort  bool              `json:"drain_short"`
 	StopAtEnd   bool              `json:"stop_at_end"` // C41: use Server.Stop instead of a patient final DrainSends
 	Calls       []verifC28CallBeh `json:"calls"`
+	// TailEmit: emission behaviour (mode and keys only) of every usecase call
+	// beyond len(Calls)
+	TailEmit verifC28CallBeh `json:"tail_emit"`
+}
+
+// verifC28GenEmit draws how one usecase call orders its result emissions.
+// Modes 0-2 keep each session's items in input order (what the real message
+// App does for sessions it can identify); mode 3 completes the items in an
+// arbitrary order, which the SendBatchEach contract allows ("Indexes may arrive
+// out of input order") and which the handler's per-session reorder buffer
+// exists for (cf. TestOnSendBatchBuffersOutOfOrderResultsForOneSession).
+func verifC28GenEmit(rt *rapid.T, b *verifC28CallBeh) {
+	b.EmitMode = rapid.SampledFrom([]int{0, 1, 2, 3, 3, 3}).Draw(rt, "emitMode")
+	if b.EmitMode == 3 {
+		n := rapid.IntRange(0, 8).Draw(rt, "emitKeys")
+		for i := 0; i < n; i++ {
+			b.EmitKeys = append(b.EmitKeys, rapid.IntRange(0, 3).Draw(rt, "emitKey"))
+		}
+	}
 }
 
 func verifC28Gen(rt *rapid.T, drainBias bool) verifC28Params {
@@ -127,7 +150,8 @@ func verifC28Gen(rt *rapid.T, drainBias bool) verifC28Params {
 	slow := rapid.IntRange(0, 2).Draw(rt, "slowUsecase")
 	nCalls := rapid.IntRange(0, 12).Draw(rt, "callBehs")
 	for i := 0; i < nCalls; i++ {
-		b := verifC28CallBeh{EmitMode: rapid.IntRange(0, 2).Draw(rt, "emitMode")}
+		b := verifC28CallBeh{}
+		verifC28GenEmit(rt, &b)
 		switch slow {
 		case 1:
 			b.LatencyUS = rapid.IntRange(0, 400).Draw(rt, "latencyUS")
@@ -140,6 +164,7 @@ func verifC28Gen(rt *rapid.T, drainBias bool) verifC28Params {
 		}
 		p.Calls = append(p.Calls, b)
 	}
+	verifC28GenEmit(rt, &p.TailEmit)
 	return p
 }
 
@@ -170,6 +195,7 @@ type verifC28CallItem struct {
 	Failed      bool   `json:"failed"`
 	Reason      uint8  `json:"reason"` // expected frame.ReasonCode
 	Emitted     bool   `json:"emitted"`
+	EmitPos     int    `json:"emit_pos"` // position in the call's emission sequence (valid when Emitted)
 	EmitErr     string `json:"emit_err,omitempty"`
 	CtxErrAtEnd string `json:"ctx_err_at_end,omitempty"`
 }
@@ -221,6 +247,8 @@ func (u *verifC28Usecase) SendBatchEach(items []message.SendBatchItem, emit func
 	var beh verifC28CallBeh
 	if call.No < len(u.p.Calls) {
 		beh = u.p.Calls[call.No]
+	} else {
+		beh.EmitMode, beh.EmitKeys = u.p.TailEmit.EmitMode, u.p.TailEmit.EmitKeys
 	}
 	results := make([]message.SendBatchItemResult, len(items))
 	for i, it := range items {
@@ -249,14 +277,28 @@ func (u *verifC28Usecase) SendBatchEach(items []message.SendBatchItem, emit func
 	}
 	verifC28Sleep(beh.LatencyUS)
 
-	// emission order: per-session item order is preserved (the real message
-	// usecase guarantees exactly that), the interleaving of sessions varies
+	// emission order: modes 0-2 preserve per-session item order and vary the
+	// interleaving of sessions; mode 3 is an arbitrary completion order (items
+	// of one session complete out of order, e.g. different channels with
+	// different append latencies) -- the contract only promises serialized
+	// emits, one per index, none after an emit error
 	order := make([]int, 0, len(items))
 	switch beh.EmitMode {
 	case 0:
 		for i := range items {
 			order = append(order, i)
 		}
+	case 3:
+		for i := range items {
+			order = append(order, i)
+		}
+		key := func(i int) int {
+			if len(beh.EmitKeys) == 0 {
+				return -i
+			}
+			return beh.EmitKeys[i%len(beh.EmitKeys)]
+		}
+		sort.SliceStable(order, func(a, b int) bool { return key(order[a]) < key(order[b]) })
 	default:
 		var keys []uint64
 		groups := map[uint64][]int{}
@@ -285,13 +327,14 @@ func (u *verifC28Usecase) SendBatchEach(items []message.SendBatchItem, emit func
 		}
 	}
 	var emitErr error
-	for _, i := range order {
+	for pos, i := range order {
 		if emitErr != nil {
 			break // like the real usecase: nothing is emitted after an emit error
 		}
 		err := emit(i, results[i])
 		u.mu.Lock()
 		call.Items[i].Emitted = true
+		call.Items[i].EmitPos = pos
 		if err != nil {
 			call.Items[i].EmitErr = err.Error()
 		}
@@ -395,8 +438,9 @@ func verifC28SendFrame(sess, idx int) *frame.SendPacket {
 	return &frame.SendPacket{
 		ClientSeq:   uint64(idx + 1),
 		ClientMsgNo: fmt.Sprintf("m%d-%d", sess, idx),
-		ChannelID:   "g1",
-		ChannelType: frame.ChannelTypeGroup,
+		// consecutive SENDs of a session go to different channels / channel kinds
+		ChannelID:   fmt.Sprintf("c%d", (idx+sess)%3),
+		ChannelType: verifC28ChanType((idx + sess) % 3),
 		Payload:     []byte(fmt.Sprintf("p%d-%d", sess, idx)),
 	}
 }
@@ -769,6 +813,31 @@ type verifC28Verdict struct {
 	multiSessionCall bool
 	failedItems     int
 	collateral      int // sessions closed by the server that never saw a rejected admission of their own
+	// measured result-arrival shapes inside one usecase call, per session
+	sameSession3    bool // a call carried >= 3 SENDs of one session
+	reordered       bool // a result arrived before the result of an earlier SEND of its session (must be buffered)
+	behindBuffered  bool // a result arrived whose predecessor had arrived but was itself still buffered behind an outstanding earlier SEND
+}
+
+// verifC28EmitShapes classifies the arrival order of one session's results in
+// one call. pos[k] = emission position of the session's k-th item in the call,
+// or a value larger than every position when it was never emitted.
+func verifC28EmitShapes(pos []int) (reordered, behindBuffered bool) {
+	for k := 1; k < len(pos); k++ {
+		earlierOutstanding := false
+		for j := 0; j < k; j++ {
+			if pos[j] > pos[k] {
+				earlierOutstanding = true
+				if j < k-1 && pos[k-1] < pos[k] {
+					behindBuffered = true
+				}
+			}
+		}
+		if earlierOutstanding {
+			reordered = true
+		}
+	}
+	return
 }
 
 func (v *verifC28Verdict) fail(format string, args ...any) {
@@ -816,6 +885,22 @@ func verifC28Judge(h *verifC28History) *verifC28Verdict {
 		}
 		if len(sids) > 1 {
 			v.multiSessionCall = true
+		}
+		perSess := map[uint64][]int{}
+		for _, it := range c.Items {
+			pos := len(c.Items) + 1
+			if it.Emitted {
+				pos = it.EmitPos
+			}
+			perSess[it.SessionID] = append(perSess[it.SessionID], pos)
+		}
+		for sid := range sids {
+			if len(perSess[sid]) >= 3 {
+				v.sameSession3 = true
+			}
+			r, b := verifC28EmitShapes(perSess[sid])
+			v.reordered = v.reordered || r
+			v.behindBuffered = v.behindBuffered || b
 		}
 	}
 
@@ -1051,6 +1136,9 @@ func TestVerifC28SendackOrder(t *testing.T) {
 		k.LabelIf(v.collateral > 0, "sessions closed as collateral of another session's close (same micro-batch)")
 		col.AddExtra("collateral_closed_sessions", int64(v.collateral))
 		k.LabelIf(v.failedItems > 0, "usecase failed items")
+		k.LabelIf(v.sameSession3, "usecase batch carried >=3 SENDs of one session")
+		k.LabelIf(v.reordered, "a result arrived before an earlier SEND's result of the same session (handler must buffer)")
+		k.LabelIf(v.behindBuffered, "a result arrived while its predecessor was buffered behind a still outstanding SEND")
 		k.LabelIf(v.acks > 0 && v.acks == v.sends, "every delivered SEND acknowledged")
 		k.LabelIf(len(p.Sessions) > 1, "multiple sessions")
 		if kit.Scale("C28_DEBUG", 0, 0) == 1 {
